@@ -72,7 +72,14 @@ impl WorkerTree {
                 for source in resources.collect_work(&input) {
                     let source = normalize_path(source);
 
-                    let relative_path = source.strip_prefix(&input).map_err(|err| {
+                    // the current directory itself: normalized sources have no `.` prefix to remove
+                    let input_prefix = if input == Path::new(".") {
+                        Path::new("")
+                    } else {
+                        input.as_path()
+                    };
+
+                    let relative_path = source.strip_prefix(input_prefix).map_err(|err| {
                         DarkluaError::custom(format!(
                             "unable to remove path prefix `{}` from `{}`: {}",
                             input.display(),
